@@ -306,6 +306,14 @@ func (g *Gen) boundaryTable() []MsgSpec {
 	idpart := good[len("did:panacea:"):]
 	didVariants := []string{good, "did:panacea:" + rep("1", 31), "did:panacea:" + rep("1", 32), "did:panacea:" + rep("z", 44), "did:panacea:" + rep("z", 45),
 		"did:panacea:" + rep("0", 40), "did:panacea:" + rep("O", 40), "did:panacea:" + rep("l", 40), "did:panacea:" + rep("I", 40), "did:other:" + idpart, "DID:panacea:" + idpart, "did:panacea:", "", good + " ", " " + good, good + "\n", "did:panacea:" + rep("é", 20)}
+	// the same limits with identifiers that begin with letters of the method prefix itself ("did:panacea:" is made of
+	// a c d e i n p and ':'): a hand-written scanner that strips or skips the prefix by character set miscounts these
+	for _, lead := range []string{"a", "d", "pan", "did", "acdeinp", "panacea"} {
+		for _, n := range []int{31, 32, 44, 45} {
+			didVariants = append(didVariants, "did:panacea:"+lead+rep("1", n-len(lead)), "did:panacea:"+lead+rep("z", n-len(lead)))
+		}
+	}
+	didVariants = append(didVariants, "did:panacea:did:panacea:"+idpart, "did:panacea:"+idpart+":", "did:panacea::"+idpart[1:], "did:panacea"+idpart, "did:panacea:"+idpart[:43]+"#")
 	for _, dv := range didVariants {
 		doc := g.plainDoc(dv, k)
 		out = append(out, MsgSpec{T: "did.Create", F: map[string]string{"did": dv, "from": o}, Doc: doc, Proof: &ProofSpec{Key: k, MethodID: dv + "#key1", Seq: "0"}})
